@@ -72,19 +72,21 @@ def run(ctx):
                    "%s::new writes its own PDU type %s into the header" % (short(owner), pdu_c.get("v") if pdu_c else "?"),
                    where=bd.where(bi, si), detail=a[1])
             if adt in owner_of:
-                # variable length: fixed part + payload length
+                # variable length: fixed part + payload length, however the sum is spelt (checked_add / `+`, operand order,
+                # size_of / constant): the expression is read as a linear form over `len(<parameter>)` leaves
                 pay = "key_info" if "RouterKey" in adt else "providers"
-                sz = [x for x in walk(hdr[2][3]) if x[0] == "call" and x[3].get("name") == "size_of"]
-                ok = len(sz) == 1 and sz[0][3].get("ga") == (adt,) and re.search(r"len\(%s\)|%s\)" % (pay, pay), a[3]) is not None \
-                    and "checked_add" in a[3]
+                lf = linear(hdr[2][3], f)
+                lens = [k for k in (lf or {}) if k is not None]
+                ok = lf is not None and lf.get(None) == size and len(lens) == 1 and lf[lens[0]] == 1 and \
+                    _is_len_of_param(lens[0], bd, bd.arg_count)
                 ctx.ob("R-LAYOUT", "%s:length" % short(owner), ok,
                        "%s::new writes size_of::<%s>() + %s.len() as the PDU length" % (short(owner), short(adt), pay),
                        where=bd.where(bi, si), detail=a[3])
             else:
                 lt = hdr[2][3]
                 ok = False
-                if lt[0] == "const":
-                    ok = lt[1] == size
+                if int_value(lt, f) is not None:
+                    ok = int_value(lt, f) == size
                 elif lt[0] == "call" and lt[1] == adt + "::size":
                     ok = True
                 ctx.ob("R-LAYOUT", "%s:length" % short(owner), ok,
@@ -110,10 +112,16 @@ def run(ctx):
         detail = None
         if len(hs) == 1:
             a = K.arg_renders(hs[0])
+            at = K.arg_terms(hs[0])
             detail = a
-            sz = a[3]
-            ok = a[1] == "10" and a[2] == "error_code" and sz.count("mem::size_of()") >= 2 and "len(pdu)" in sz.replace("slice::len", "len") \
-                and "len(text)" in sz.replace("slice::len", "len") and "MulWithOverflow(2" in sz
+            hsize = (f.adts.get(P + "Header") or {}).get("size")
+            lf = linear(at[3], f)
+            lens = sorted((k for k in (lf or {}) if k is not None), key=render)
+            ok = int_value(at[1], f) == (f.consts.get(P + "Error::PDU") or {}).get("v", 10) == 10 and \
+                strip_deep(at[2]) == K.sym_of(eb).local(2) and lf is not None and hsize is not None and \
+                lf.get(None) == hsize + 2 * 4 and len(lens) == 2 and all(lf[k] == 1 for k in lens) and \
+                {True} == {_is_len_of_param(k, eb, 3) or _is_len_of_param(k, eb, 4) for k in lens} and \
+                any(_is_len_of_param(k, eb, 3) for k in lens) and any(_is_len_of_param(k, eb, 4) for k in lens)
         ctx.ob("R-LAYOUT", "Error::new:length", ok,
                "Error::new writes header + 2 length words + both embedded lengths as the PDU length, type 10", where=eb.loc, detail=detail)
         ext = [K.arg_renders(c)[1] for c in eb.calls() if c.name == "extend_from_slice" and not eb.is_cleanup(c.bb)]
@@ -387,12 +395,17 @@ def run(ctx):
         ctx.missing("R-FLOW", "Payload::to_payload", P + "Payload::to_payload")
     else:
         ctx.saw_fn(tb.name)
-        vals = sorted({render(t) for t in returned_terms(f, tb.name)})
+        vals = sorted({render(canon_checked(t)) for t in returned_terms(f, tb.name)})
         me = re.escape(render(("param", tb.local_name(1) or "_1")))
+        rxs = []
         for fam in ("v4", "v6"):
             rx = r"Payload::origin\(Try::branch\(MaxLenPrefix::new\(Try::branch\(Prefix::new_%s_relaxed\(Ipv%sPrefix::prefix\(payload↓V%s\.0\), Ipv%sPrefix::prefix_len\(payload↓V%s\.0\)\)\)↓Continue\.0, option::Option::Some\{0: Ipv%sPrefix::max_len\(payload↓V%s\.0\)\}\)\)↓Continue\.0, Ipv%sPrefix::asn\(payload↓V%s\.0\)\)" % ((fam, fam[1], fam[1]) + (fam[1], fam[1]) * 3)
             rx = rx.replace("payload", me)
-            ok = any(re.search(rx, v) for v in vals)
+            rxs.append(rx)
+        for fam, rx in zip(("v4", "v6"), rxs):
+            # some returned value is the validated origin of this family, and no origin is returned that is built otherwise
+            mine = [v for v in vals if "Payload::origin(" in v and ("↓V%s.0" % fam[1] in v or not ("↓V4.0" in v or "↓V6.0" in v))]
+            ok = any(re.search(rx, v) for v in vals) and all(re.search(rx, v) for v in mine)
             ctx.ob("R-FLOW", "to_payload:%s-origin-validated" % fam, ok,
                    "an IP%s origin is built from checked Prefix::new_%s_relaxed and MaxLenPrefix::new of the PDU's own fields" % (fam, fam),
                    where=tb.loc, detail=None if ok else vals)
@@ -987,4 +1000,126 @@ class _CursorSub:
             if n and all(why):
                 ok = True
                 what = "%s [C07 cursor rule: %s]" % (what, why[0])
+        m = re.search(r"\|assert:(RemainderByZero|DivisionByZero)\|", key) if (not ok and rule == "R-PANIC" and where) else None
+        if m:
+            # `x % size_of::<u32>()`, `x / LIMIT`: the divisor is a non-zero constant expression
+            fn = key.split("|", 1)[0]
+            res = []
+            for name, b in self._f.bodies.items():
+                if root_fn(self._f, name) != fn:
+                    continue
+                sy = K.sym_of(b)
+                for bi, blk in enumerate(b.blocks):
+                    tt = blk["term"]
+                    if tt["t"] == "assert" and tt.get("kind") == m.group(1) and not blk.get("cleanup") and b.where(bi) == where:
+                        c = strip_deep(sy.operand(tt["cond"]))
+                        d = None
+                        if c[0] == "bin" and c[1] == "Eq" and tt.get("expected") is False:
+                            d = int_value(c[2], self._f) if int_value(c[3], self._f) == 0 else \
+                                (int_value(c[3], self._f) if int_value(c[2], self._f) == 0 else None)
+                        res.append(d not in (None, 0))
+            if res and all(res):
+                ok = True
+                what = "%s [C07: the divisor is a non-zero constant]" % what
         return self._ctx.ob(rule, key, ok, what, where=where, detail=detail, nontrivial=nontrivial)
+
+
+# ---------------------------------------------------------------------------------------------------------------
+# integer-linear reading of a length expression
+
+def _value_keeping(t):
+    """Peel wrappers that deliver the number they are given when they deliver at all: casts, `try_from(x).unwrap()`,
+    `opt.expect(..)`, `x?`, the `.0` of a checked operation."""
+    while True:
+        t = strip_deep(t)
+        if t[0] == "cast":
+            t = t[1]
+        elif t[0] == "call" and t[2] and (t[3] or {}).get("name") in ("unwrap", "expect", "unwrap_unchecked") and \
+                (_OPT_FN.match((t[3] or {}).get("fn") or "") or _RES_FN.match((t[3] or {}).get("fn") or "")):
+            t = t[2][0]
+        elif t[0] == "call" and len(t[2]) == 1 and (t[3] or {}).get("name") == "try_from" and ((t[3] or {}).get("trait") or "").endswith("TryFrom"):
+            t = t[2][0]
+        elif t[0] == "call" and t[2] and (t[3] or {}).get("name") == "branch" and ((t[3] or {}).get("trait") or "").endswith("ops::Try"):
+            t = t[2][0]
+        elif t[0] == "field" and t[2] == "0" and t[1][0] == "variant" and t[1][2] in ("Some", "Ok", "Continue"):
+            t = t[1][1]
+        elif t[0] == "field" and t[2] == "0" and t[1][0] == "bin" and t[1][1].endswith("WithOverflow"):
+            t = t[1]
+        else:
+            return t
+
+
+def linear(t, f):
+    """{leaf term: coefficient, None: constant} for an expression built from integer constants, `+`, `-`, `*` by a
+    constant (operators, checked_* and the overflow-checking forms alike) and opaque leaves; None if it is not linear."""
+    t = _value_keeping(t)
+    v = int_value(t, f)
+    if v is not None:
+        return {None: v}
+    op = a = b = None
+    if t[0] == "bin":
+        op, a, b = t[1].replace("WithOverflow", ""), t[2], t[3]
+    elif t[0] == "call" and len(t[2]) == 2 and ((t[3] or {}).get("fn") or "").startswith("core::num::") and \
+            (t[3] or {}).get("name") in ("checked_add", "checked_sub", "checked_mul", "saturating_add", "wrapping_add"):
+        op, a, b = {"add": "Add", "sub": "Sub", "mul": "Mul"}[t[3]["name"].split("_")[1]], t[2][0], t[2][1]
+    if op in ("Add", "Sub", "Mul"):
+        x, y = linear(a, f), linear(b, f)
+        if x is None or y is None:
+            return None
+        if op == "Mul":
+            if set(x) <= {None}:
+                x, y = y, x
+            if not set(y) <= {None}:
+                return None
+            k = y.get(None, 0)
+            return {key: c * k for key, c in x.items()}
+        out = dict(x)
+        for key, c in y.items():
+            out[key] = out.get(key, 0) + (c if op == "Add" else -c)
+        return {key: c for key, c in out.items() if c != 0 or key is None}
+    if op is not None:
+        return None
+    return {t: 1}
+
+
+def _is_len_of_param(leaf, body, idx):
+    """`<param idx>.len()` (any `len` method of the parameter's type; conversions such as as_ref() are transparent)."""
+    return leaf[0] == "call" and (leaf[3] or {}).get("name") == "len" and len(leaf[2]) == 1 and \
+        strip_deep(leaf[2][0]) == K.sym_of(body).local(idx)
+
+
+_TRY_BRANCH = ("<std::result::Result<T, E> as std::ops::Try>::branch",
+               {"fn": "std::ops::Try::branch", "res": "<std::result::Result<T, E> as std::ops::Try>::branch", "name": "branch",
+                "trait": "std::ops::Try", "ga": (), "bb": None, "krate": "core"})
+
+
+def canon_checked(t):
+    """One spelling for "the value a fallible expression R delivers when it succeeds": `R?`, `R.map_err(f)?`,
+    `match R { Ok(v) => v, Err(e) => return … }`, `let Ok(v) = R else { … }`, `R.ok_or(e)?` all become
+    `Try::branch(R)↓Continue.0` (error-side adapters do not touch the value)."""
+    from engine.sym import _Info
+
+    def peel(x):
+        x = strip_deep(x)
+        while x[0] == "call" and x[2] and (
+                ((x[3] or {}).get("name") in _RES_PAYLOAD_KEEPING and _RES_FN.match((x[3] or {}).get("fn") or "")) or
+                ((x[3] or {}).get("name") in (_OPT_PAYLOAD_KEEPING - {"filter"}) | {"ok_or", "ok_or_else"} and _OPT_FN.match((x[3] or {}).get("fn") or ""))):
+            x = strip_deep(x[2][0])
+        return x
+
+    def fn(x):
+        if x[0] == "field" and x[2] == "0" and x[1][0] == "variant":
+            v, base = x[1][2], strip_deep(x[1][1])
+            root = None
+            if v == "Continue" and base[0] == "call" and base[2] and (base[3] or {}).get("name") == "branch" and \
+                    ((base[3] or {}).get("trait") or "").endswith("ops::Try"):
+                root = peel(base[2][0])
+            elif v in ("Ok", "Some"):
+                root = peel(base)
+                if root[0] != "call":
+                    root = None         # a pattern binding of a parameter / field, not the result of a fallible call
+            if root is not None:
+                br = ("call", _TRY_BRANCH[0], (_tmap(root, fn),), _Info(_TRY_BRANCH[1]))
+                return ("field", ("variant", br, "Continue"), "0", None)
+        return None
+    return _tmap(strip_deep(t), fn)
